@@ -164,6 +164,9 @@ func (f *localWrapper) Sync(schema proxyv1alpha1.FlowControlSchema) {
 	newType := flowcontrol.GuessFlowControlSchemaType(schema)
 	if f.FlowControl == nil || f.Type() != newType {
 		f.FlowControl = f.flowControlCache.newMeterFlowControl(schema)
+		// a remote limiter built for the previous type must not outlive it: it would keep
+		// limiting requests, and the limiter server refuses the stale type it reports
+		f.flowControlCache.stopRemoteWrapper()
 		klog.Infof("[local limiter] cluster=%q ensure flowcontrol schema %v id=%v", f.flowControlCache.cluster, f.String(), f.flowControlCache.clientID)
 		return
 	}
